@@ -178,7 +178,7 @@ def run(ctx):
     ctx.exhaustive = True
     ctx.trusted += ["TLC 1.8", "Rat.tla", "harness rendering of numerals/whitespace and float-vs-rational comparison (rel 1e-12)", "vlib parser"]
     ctx.assumptions += ["numerals of the enumerated shapes only (sign, leading zeros, bare fraction, trailing dot/zero, e/E exponents with sign)",
-                        "percent reference is a positive number (a reference of 0 is not judged)",
+                        "percent reference is a non-negative number (0 included: a percentage of 0 is 0)",
                         "Python-only numeral spellings with a numeric part ('1_0', non-ASCII digits) are not claimed either way"]
     return ctx.finish(
         rule="G only: every (numeral, unit, reference) of the TLC universe in 24 text spellings (12 numeral variants x 2 whitespace variants; Q also as q) "
